@@ -63,6 +63,10 @@ pub fn rerun(line: &str) -> Option<String> {
             let o = crate::common::Opts { ecl: optn(e), mode: optn(m), version: optn(v), mask: optn(k) };
             Some(crate::pixops::pixframe_line(&unhex(hx), o, &crate::svgops::parse(ops)?))
         }
+        ["pixsvg", hx, e, m, v, k, ops, w] => {
+            let o = crate::common::Opts { ecl: optn(e), mode: optn(m), version: optn(v), mask: optn(k) };
+            Some(crate::pixops::pixsvg_line(&unhex(hx), o, &crate::svgops::parse(ops)?, w.parse().ok()?))
+        }
         ["pixh", hx, e, m, v, k, ops, hist] => {
             let o = crate::common::Opts { ecl: optn(e), mode: optn(m), version: optn(v), mask: optn(k) };
             Some(crate::pixops::pixh_line(&unhex(hx), o, &crate::svgops::parse(ops)?, &crate::pixops::parse_fits(hist)?))
